@@ -643,9 +643,19 @@ def gen_pdacc(rng, tier, cs):
                 t_ /= th
                 s_ *= th
             thetas.append(th)
+        # resumption: the caller replays the scalar recursion to get the step sizes the first call reached
+        sp = []
+        fo, go = f.build(L.domain), g.build(L.range)
+        for n1 in range(N + 1):
+            x = L.domain.element(x0)
+            xr, yy = x.copy(), L.range.zero()
+            pdhg(x, fo, go, L, n1, tau, sigma, x_relax=xr, y=yy, **{which: gam})
+            t1_, s1_ = (taus[n1], sigmas[n1]) if n1 < N else (t_, s_)
+            pdhg(x, fo, go, L, N - n1, t1_, s1_, x_relax=xr, y=yy, **{which: gam})
+            sp.append(np.asarray(x).tolist())
         cs.add('{| kw_nc := %d; kw_M := %s; kw_f := %s; kw_g := %s; kw_tau := %s; kw_sigma := %s; kw_theta := %s; '
-               'kw_x := %s; kw_n := %d; kw_tr := %s |}'
-               % (n, C.qss(M), f.coq, g.coq, C.qs(taus), C.qs(sigmas), C.qs(thetas), C.qs(x0), N, C.qss(t1)),
+               'kw_x := %s; kw_n := %d; kw_tr := %s; kw_split := %s |}'
+               % (n, C.qss(M), f.coq, g.coq, C.qs(taus), C.qs(sigmas), C.qs(thetas), C.qs(x0), N, C.qss(t1), C.qss(sp)),
                {'solver': 'pdhg (accelerated)', 'M': M, 'f': f.desc, 'g': g.desc, 'tau': tau, 'sigma': sigma,
                 which: gam, 'x0': x0, 'niter': N},
                ('pdacc', n, m, f.coq, g.coq, tau, sigma, which, gam, N, tuple(x0)) if N > 0 else None)
